@@ -150,6 +150,16 @@ def replay_family(chk: Check, fam, data, tier):
                                 j = int(np.nonzero(gb != got[bpos])[0][0]) if gb.shape == (len(big),) else 0
                                 report(chk, kind, els, aff, subtype, box, B, int(bpos[j]), f"array tiled to {len(big)} elements (position {j})", bool(gb[j]) if gb.shape == (len(big),) else None,
                                        int(want[bpos[j]]))
+                        if b % 7 == 0 and len(arr) >= 4:
+                            # position lists that are a permutation (or have repeats) of a consecutive run, first and last in place
+                            for pl in ([0, 2, 1, 3], [1, 3, 2, 2, 4] if len(arr) >= 5 else [0, 1, 1, 2], list(range(len(arr) - 1, -1, -1))):
+                                pa_ = np.array(pl)
+                                gp = np.asarray(arr.intersects_bounds(box, pa_))
+                                if not np.array_equal(gp, got[pa_]):
+                                    j = int(np.nonzero(gp != got[pa_])[0][0]) if gp.shape == got[pa_].shape else 0
+                                    report(chk, kind, els, aff, subtype, box, B, int(pa_[j]), "inds", bool(gp[j]) if gp.shape == got[pa_].shape else None, int(want[pa_[j]]),
+                                           extra=f"inds={pl} position {j}")
+                                    break
                         got_i = np.asarray(arr.intersects_bounds(box, indsk))
                         if not np.array_equal(got_i, got[indsk]):
                             j = int(np.nonzero(got_i != got[indsk])[0][0])
